@@ -8,20 +8,11 @@ package main
 import (
 	"fmt"
 	"go/ast"
-	"go/constant"
 	"go/token"
 	"path/filepath"
 	"sort"
 	"strings"
 )
-
-func litString(e ast.Expr) (string, bool) {
-	bl, ok := e.(*ast.BasicLit)
-	if !ok || bl.Kind != token.STRING {
-		return "", false
-	}
-	return constant.StringVal(constant.MakeFromLiteral(bl.Value, token.STRING, 0)), true
-}
 
 func init() {
 	registerGen("OpenApiTables.v", func(repo string) (string, error) {
